@@ -36,6 +36,7 @@ type stubTiles struct {
 	origin string
 	signer note.Signer
 	reqs   int
+	outage bool // everything but the checkpoint answers 503
 }
 
 func (s *stubTiles) checkpoint() []byte {
@@ -52,6 +53,9 @@ func (s *stubTiles) RoundTrip(r *http.Request) (*http.Response, error) {
 	p := strings.TrimPrefix(r.URL.Path, "/")
 	if p == "checkpoint" {
 		return mk(200, s.checkpoint())
+	}
+	if s.outage {
+		return mk(503, []byte("tile storage is unavailable"))
 	}
 	if !strings.HasPrefix(p, "tile/") || strings.HasPrefix(p, "tile/entries") {
 		return mk(404, nil)
@@ -144,6 +148,7 @@ type omniLog struct {
 	id     string
 	setSz  func(uint64)
 	fork   func()
+	outage func(bool) // the log's proof material (tiles, proof endpoint) answers 503 while on; the checkpoint is still served
 	verif  note.Verifier
 	br     *branch
 }
@@ -158,9 +163,23 @@ func scenarioOmni(t *traceWriter, rng *rand.Rand) {
 	stA := &stubTiles{br: trA, origin: "omni.example/tiles-a", signer: key.signer}
 	stB := &stubTiles{br: trB, origin: "omni.example/tiles-b", signer: key.signer}
 	logs := []*omniLog{
-		{name: "sumdb", origin: sdb.origin, setSz: func(n uint64) { sdb.mu.Lock(); sdb.size = int64(n); sdb.mu.Unlock() }, verif: key.verif, br: sumBr},
+		{name: "sumdb", origin: sdb.origin, setSz: func(n uint64) { sdb.mu.Lock(); sdb.size = int64(n); sdb.mu.Unlock() }, verif: key.verif, br: sumBr,
+			outage: func(on bool) {
+				sdb.mu.Lock()
+				sdb.hostile = nil
+				if on {
+					sdb.hostile = func(path string) (int, []byte, bool) {
+						if path == "/latest" {
+							return 0, nil, false
+						}
+						return 503, []byte("tile storage is unavailable"), true
+					}
+				}
+				sdb.mu.Unlock()
+			}},
 		{name: "tilesA", origin: stA.origin, setSz: func(n uint64) { stA.mu.Lock(); stA.size = n; stA.mu.Unlock() }, verif: key.verif, br: trA},
-		{name: "tilesB", origin: stB.origin, setSz: func(n uint64) { stB.mu.Lock(); stB.size = n; stB.mu.Unlock() }, verif: key.verif, br: trB},
+		{name: "tilesB", origin: stB.origin, setSz: func(n uint64) { stB.mu.Lock(); stB.size = n; stB.mu.Unlock() }, verif: key.verif, br: trB,
+			outage: func(on bool) { stB.mu.Lock(); stB.outage = on; stB.mu.Unlock() }},
 	}
 	// the other three feeder types of the shipped configuration
 	trP := newExplicitBranch("pixel", 800, nil, 0)
@@ -172,10 +191,10 @@ func scenarioOmni(t *traceWriter, rng *rand.Rand) {
 	stR2 := &stubRekor{stubLogBase: stubLogBase{br: trR2, origin: "rekor.omni.example - 3904496407287907110", signer: key.signer}, treeID: "3904496407287907110", inactive: true}
 	stS := &stubServerless{stubLogBase{br: trS, origin: "omni.example/serverless", signer: key.signer, mount: "/logs/a"}}
 	logs = append(logs,
-		&omniLog{name: "pixel", origin: stP.origin, setSz: stP.setSize, verif: key.verif, br: trP},
-		&omniLog{name: "rekor", origin: stR.origin, setSz: stR.setSize, verif: key.verif, br: trR},
-		&omniLog{name: "rekorShard", origin: stR2.origin, setSz: stR2.setSize, verif: key.verif, br: trR2},
-		&omniLog{name: "serverless", origin: stS.origin, setSz: stS.setSize, verif: key.verif, br: trS})
+		&omniLog{name: "pixel", origin: stP.origin, setSz: stP.setSize, verif: key.verif, br: trP, outage: stP.setOutage},
+		&omniLog{name: "rekor", origin: stR.origin, setSz: stR.setSize, verif: key.verif, br: trR, outage: stR.setOutage},
+		&omniLog{name: "rekorShard", origin: stR2.origin, setSz: stR2.setSize, verif: key.verif, br: trR2, outage: stR2.setOutage},
+		&omniLog{name: "serverless", origin: stS.origin, setSz: stS.setSize, verif: key.verif, br: trS, outage: stS.setOutage})
 	// a fork of tilesA that diverges at leaf 100, and of the sumdb log (other leaves from 150)
 	forkA := newExplicitBranch("tilesA-fork", maxLeaves, trA, 100)
 	logs[1].fork = func() { stA.mu.Lock(); stA.br = forkA; stA.mu.Unlock() }
@@ -424,6 +443,48 @@ func scenarioOmni(t *traceWriter, rng *rand.Rand) {
 			}
 			for i := range logs {
 				sched[i][steps-1] = grown[i] // the fork phase below starts from here
+			}
+		}
+		// outage: every log grows while its proof material answers 503 for several poll intervals (each feed cycle then
+		// uses up its whole deadline), then recovers: the service keeps serving what it had and follows again afterwards
+		if ex, _ := exited(); !ex {
+			target := make([]uint64, len(logs))
+			for i, rl := range logs {
+				target[i] = sched[i][steps-1]
+				if rl.outage != nil && target[i]+2 <= rl.br.size() && target[i] > 0 {
+					target[i] += 2
+					rl.outage(true)
+					rl.setSz(target[i])
+				}
+			}
+			time.Sleep(6 * opc.FeedInterval)
+			for _, rl := range logs {
+				if rl.outage != nil {
+					rl.outage(false)
+				}
+			}
+			deadline := time.Now().Add(200 * opc.FeedInterval)
+			for time.Now().Before(deadline) {
+				all := true
+				for i, rl := range logs {
+					sz, _, _ := served(rl)
+					all = all && sz == target[i]
+				}
+				if all {
+					break
+				}
+				time.Sleep(opc.FeedInterval / 2)
+			}
+			for i, rl := range logs {
+				sz, root, valid := served(rl)
+				want := base64.StdEncoding.EncodeToString(rl.br.root(target[i]))
+				t.line("OM store=%s step=after-outage log=%s want=%d wantroot=%s => served=%d root=%s valid=%d", storeKind, rl.name, target[i], hx([]byte(want)), sz, hx([]byte(root)), valid)
+			}
+			if ex, msg := exited(); ex {
+				t.line("OMX store=%s phase=outage => exited=1 err=%s", storeKind, hx([]byte(msg)))
+			}
+			for i := range logs {
+				sched[i][steps-1] = target[i]
 			}
 		}
 		// fork: tilesA starts serving a history that is not an extension of what was witnessed; with a restart in between
